@@ -310,6 +310,18 @@ def workload(ctx, repo):
         kw, form, off = make_point(rng, mode)
         case = {"op": "default", "p": kw, "form": form, "mode": mode}
         ctx.cls("mode/" + mode)
+        if k % 6 == 0:
+            tw = gen.twin_of(rng, mode, kw)
+            if tw is not None and "num_expanded_year_digits" in kw:
+                tw["num_expanded_year_digits"] = \
+                    kw["num_expanded_year_digits"]
+            nd = (tw or {}).get("num_expanded_year_digits", 0)
+            if tw is not None and (
+                    0 <= tw["year"] <= 9999 or
+                    (nd and abs(tw["year"]) <= 10 ** (4 + nd) - 1)):
+                ctx.case = dict(case, p=tw, form="hms")
+                ctx.ev("cases.twin")
+                run_case(ctx, repo, ctx.case)
         ctx.case = case
         if k % 701 == 0:
             ctx.sample(case)
